@@ -234,7 +234,10 @@ def generate(rng, tier):
         cases.append(("interp.run", ["+".join(s)]))
     # canonical trees given as bit trees (same scripts as the parser would build) and non-minimal push forms
     for t in ["o81,o82,o147", "p01,i99.1.1,o82,o83", "p,i100.2.x,o82,o83,o84", "d76.0102,d77.03,d78.,o126,o126",
-              "p01,i99.1.0,p02,o118", "p01,i99.0.1,o85", "o81,i99.2.x,o81,i100.1.1,o82,o83,o84"]:
+              "p01,i99.1.0,p02,o118", "p01,i99.0.1,o85", "o81,i99.2.x,o81,i100.1.1,o82,o83,o84",
+              # trees the parser cannot produce: outside C14 (specification "-"), correspondence only
+              "_", "c00", "o81,c0102,o82", "o99,o81", "o81,o99,o82,o103,o83,o104", "o103,o104", "d81.0102", "i81.1.x,o82", "o81,i103.1.1,o82,o83",
+              "o81,i99.0.0", "o0,i100.0.0,o81", "o81,i101.1.1,o82,o83", "o0,i102.1.1,o82,o83", "o81,i99.2.x,o103,o104", "p" + "ab" * 76]:
         cases.append(("interp.runbits", [t]))
         cases.append(("interp.tracebits", [t]))
     return cases
